@@ -37,7 +37,7 @@ TIERS = {
             "thorough": {"runs": 6000, "budget_s": 900, "run_timeout_s": 1800}},
     "C04": {"quick": {"runs": 120, "budget_s": 240, "run_timeout_s": 900},
             "thorough": {"runs": 6000, "budget_s": 900, "run_timeout_s": 1800}},
-    "C05": {"quick": {"runs": 64, "budget_s": 240, "run_timeout_s": 900},
+    "C05": {"quick": {"runs": 80, "budget_s": 240, "run_timeout_s": 900},
             "thorough": {"runs": 8000, "budget_s": 1500, "run_timeout_s": 1800}},
     "C02": {"quick": {"runs": 140, "budget_s": 240, "run_timeout_s": 900},
             "thorough": {"runs": 6000, "budget_s": 900, "run_timeout_s": 1800}},
